@@ -52,3 +52,554 @@ Print Assumptions mart_shape.
 Theorem multiplier_bounds_are_the_go_constants : go_multiplier_min_rejected = 0%Z /\ go_multiplier_max = 9999%Z.
 Proof. exact multiplier_bounds_agree. Qed.
 Print Assumptions multiplier_bounds_are_the_go_constants.
+
+(* ---- parser side and composition (ListsParse.v). Grammar of a plain movement list: step_list = ( IDENT | IDENT '*' INT | ',' )*
+   (commas optional anywhere, no newline token); mart: identifiers only. movement_list_accepted / _sound / _decided / _unique:
+   the parser accepts exactly the lists of the grammar whose multipliers read (decimal, hex, leading-0 octal) as 1..9999 and
+   returns the expansion, each step repeated N times in source order; movement_list_rejected and the located special cases:
+   the error stands at the INT token (unreadable, <= 0, > 9999), at the non-INT token after '*', at a '*' without a step,
+   at EOF for an unclosed list. mart_list_*: the same for items. *_statement_compiles_(un)terminated: from the source tokens
+   of a movement / mart statement to the emitted block: label, one line per expanded step up to and including the first
+   step_end the author wrote, else all steps and exactly one step_end; .align 2, label, one .2byte per item up to but
+   excluding the first ITEM_NONE, then exactly one. program_*: every such statement of every accepted program, its block is in
+   the program's output. moves_*: the same for moves(...) inside a command, hoisted under its label. ---- *)
+From Pory Require ListsParse. Open Scope list_scope.
+Theorem movement_list_accepted :
+  forall (switches : list (text * text)) (env_errors : bool) (c : toktype) (src : list token) (cl : token) (rest acc : list token) (f : nat),
+  ListsParse.closing c ->
+  ListsParse.step_list src ->
+  ListsParse.mults_ok src ->
+  ttype cl = c ->
+  ListsParse.nelems src < f ->
+  list_value switches env_errors f (LMov c) true (src ++ cl :: rest) acc = Parser.Ok (acc ++ ListsParse.expand src, cl :: rest).
+Proof. exact ListsParse.movement_list_accepted. Qed.
+Print Assumptions movement_list_accepted.
+
+Theorem movement_list_prefix :
+  forall (switches : list (text * text)) (env_errors : bool) (c : toktype) (src rest acc : list token) (f : nat),
+  ListsParse.closing c ->
+  ListsParse.step_list src ->
+  ListsParse.mults_ok src ->
+  rest <> [] ->
+  ListsParse.follows_ok src (cur rest) ->
+  list_value switches env_errors f (LMov c) true (src ++ rest) acc =
+  list_value switches env_errors (f - ListsParse.nelems src) (LMov c) true rest (acc ++ ListsParse.expand src).
+Proof. exact ListsParse.movement_list_prefix. Qed.
+Print Assumptions movement_list_prefix.
+
+Theorem movement_list_rejected :
+  forall (switches : list (text * text)) (env_errors : bool) (c : toktype) (src rest : list token) (b : token) (msg : string) 
+    (acc : list token) (f : nat),
+  ListsParse.closing c ->
+  ListsParse.step_list src ->
+  ListsParse.mults_ok src ->
+  rest <> [] ->
+  ListsParse.follows_ok src (cur rest) ->
+  ListsParse.list_stop c rest (Some (b, msg)) ->
+  ListsParse.nelems src < f -> list_value switches env_errors f (LMov c) true (src ++ rest) acc = err_tok b msg.
+Proof. exact ListsParse.movement_list_rejected. Qed.
+Print Assumptions movement_list_rejected.
+
+Theorem multiplier_out_of_range_rejected :
+  forall (switches : list (text * text)) (env_errors : bool) (c : toktype) (src : list token) (x m n : token) (r : list token) 
+    (k : Z) (acc : list token) (f : nat),
+  ListsParse.closing c ->
+  ListsParse.step_list src ->
+  ListsParse.mults_ok src ->
+  ttype x = IDENT ->
+  ttype m = MUL ->
+  ttype n = INT ->
+  go_parse_int (tlit n) = Some k ->
+  ~ (1 <= k <= 9999)%Z ->
+  ListsParse.nelems src < f -> exists msg : string, list_value switches env_errors f (LMov c) true (src ++ x :: m :: n :: r) acc = err_tok n msg.
+Proof. exact ListsParse.multiplier_out_of_range_rejected. Qed.
+Print Assumptions multiplier_out_of_range_rejected.
+
+Theorem multiplier_not_a_number_rejected :
+  forall (switches : list (text * text)) (env_errors : bool) (c : toktype) (src : list token) (x m b : token) (r acc : list token) (f : nat),
+  ListsParse.closing c ->
+  ListsParse.step_list src ->
+  ListsParse.mults_ok src ->
+  ttype x = IDENT ->
+  ttype m = MUL ->
+  ttype b <> INT \/ go_parse_int (tlit b) = None ->
+  ListsParse.nelems src < f -> exists msg : string, list_value switches env_errors f (LMov c) true (src ++ x :: m :: b :: r) acc = err_tok b msg.
+Proof. exact ListsParse.multiplier_not_a_number_rejected. Qed.
+Print Assumptions multiplier_not_a_number_rejected.
+
+Theorem star_without_step_rejected :
+  forall (switches : list (text * text)) (env_errors : bool) (c : toktype) (src : list token) (b : token) (r acc : list token) (f : nat),
+  ListsParse.closing c ->
+  ListsParse.step_list src ->
+  ListsParse.mults_ok src ->
+  ListsParse.no_open_step src ->
+  ttype b = MUL ->
+  ListsParse.nelems src < f -> list_value switches env_errors f (LMov c) true (src ++ b :: r) acc = err_tok b "expected movement command".
+Proof. exact ListsParse.star_without_step_rejected. Qed.
+Print Assumptions star_without_step_rejected.
+
+Theorem unclosed_movement_list_rejected :
+  forall (switches : list (text * text)) (env_errors : bool) (c : toktype) (src : list token) (b : token) (r acc : list token) (f : nat),
+  ListsParse.closing c ->
+  ListsParse.step_list src ->
+  ListsParse.mults_ok src ->
+  ttype b = EOF ->
+  ListsParse.nelems src < f -> list_value switches env_errors f (LMov c) true (src ++ b :: r) acc = err_tok b "expected movement command".
+Proof. exact ListsParse.unclosed_movement_list_rejected. Qed.
+Print Assumptions unclosed_movement_list_rejected.
+
+Theorem movement_list_decided :
+  forall (switches : list (text * text)) (env_errors : bool) (c : toktype) (ts : toks),
+  ListsParse.closing c ->
+  Consume.eof_ended ts ->
+  exists src rest : list token,
+    ts = src ++ rest /\
+    ListsParse.step_list src /\
+    ListsParse.mults_ok src /\
+    Consume.eof_ended rest /\
+    (forall (f : nat) (acc : list token),
+     list_value switches env_errors f (LMov c) true ts acc =
+     list_value switches env_errors (f - ListsParse.nelems src) (LMov c) true rest (acc ++ ListsParse.expand src)) /\
+    (ttype (cur rest) = PORYSWITCH \/
+     (exists v : option (token * string),
+        ListsParse.list_stop c rest v /\
+        (forall (f : nat) (acc : list token),
+         ListsParse.nelems src < f ->
+         list_value switches env_errors f (LMov c) true ts acc =
+         match v with
+         | Some (b, msg) => err_tok b msg
+         | None => Parser.Ok (acc ++ ListsParse.expand src, rest)
+         end))).
+Proof. exact ListsParse.movement_list_decided. Qed.
+Print Assumptions movement_list_decided.
+
+Theorem movement_list_sound :
+  forall (switches : list (text * text)) (env_errors : bool) (c : toktype) (f : nat) (ts : toks) (acc items : list token) (ts' : toks),
+  ListsParse.closing c ->
+  Consume.eof_ended ts ->
+  list_value switches env_errors f (LMov c) true ts acc = Parser.Ok (items, ts') ->
+  (exists src : list token,
+     ts = src ++ ts' /\ ListsParse.step_list src /\ ListsParse.mults_ok src /\ ttype (cur ts') = c /\ items = acc ++ ListsParse.expand src) \/
+  (exists src rest : list token, ts = src ++ rest /\ ListsParse.step_list src /\ ttype (cur rest) = PORYSWITCH).
+Proof. exact ListsParse.movement_list_sound. Qed.
+Print Assumptions movement_list_sound.
+
+Theorem movement_list_unique :
+  forall (c : toktype) (src1 : list token) (cl1 : token) (r1 src2 : list token) (cl2 : token) (r2 : list token),
+  ListsParse.closing c ->
+  ListsParse.step_list src1 ->
+  ListsParse.step_list src2 -> ttype cl1 = c -> ttype cl2 = c -> src1 ++ cl1 :: r1 = src2 ++ cl2 :: r2 -> src1 = src2 /\ cl1 = cl2 /\ r1 = r2.
+Proof. exact ListsParse.movement_list_unique. Qed.
+Print Assumptions movement_list_unique.
+
+Theorem movement_list_sound_poryswitch :
+  forall (switches : list (text * text)) (env_errors : bool) (c : toktype) (f : nat) (ts : toks) (acc items : list token) (ts' : toks),
+  list_value switches env_errors f (LMov c) true ts acc = Parser.Ok (items, ts') ->
+  exists src : list token,
+    PorySwitchLists.list_erase switches env_errors f (LMov c) true ts [] = Parser.Ok (src, ts') /\
+    ListsParse.step_list src /\ ListsParse.mults_ok src /\ items = acc ++ ListsParse.expand src /\ ttype (cur ts') = c.
+Proof. exact ListsParse.movement_list_sound_poryswitch. Qed.
+Print Assumptions movement_list_sound_poryswitch.
+
+Theorem commas_are_irrelevant :
+  forall src : list token,
+  ListsParse.step_list src ->
+  ListsParse.step_list (ListsParse.no_commas src) /\
+  ListsParse.expand (ListsParse.no_commas src) = ListsParse.expand src /\
+  ListsParse.multipliers (ListsParse.no_commas src) = ListsParse.multipliers src.
+Proof. exact ListsParse.commas_are_irrelevant. Qed.
+Print Assumptions commas_are_irrelevant.
+
+Theorem decimal_multiplier_ok :
+  forall (n : token) (d : N) (ds : list N),
+  tlit n = d :: ds ->
+  (49 <= d <= 57)%N ->
+  Forall ListsParse.dec_digit ds ->
+  (ListsParse.mult_ok n <-> (1 <= ListsParse.dec_value (d :: ds) 0 <= 9999)%Z) /\
+  ((1 <= ListsParse.dec_value (d :: ds) 0 <= 9999)%Z -> ListsParse.mult n = Z.to_nat (ListsParse.dec_value (d :: ds) 0)).
+Proof. exact ListsParse.decimal_multiplier_ok. Qed.
+Print Assumptions decimal_multiplier_ok.
+
+Theorem mart_list_accepted :
+  forall (switches : list (text * text)) (env_errors : bool) (src : list token) (cl : token) (rest acc : list token) (f : nat),
+  ListsParse.item_list src ->
+  ttype cl = RBRACE ->
+  Datatypes.length src < f -> list_value switches env_errors f LMart true (src ++ cl :: rest) acc = Parser.Ok (acc ++ src, cl :: rest).
+Proof. exact ListsParse.mart_list_accepted. Qed.
+Print Assumptions mart_list_accepted.
+
+Theorem mart_list_rejected :
+  forall (switches : list (text * text)) (env_errors : bool) (src : list token) (b : token) (r acc : list token) (f : nat),
+  ListsParse.item_list src ->
+  ttype b <> RBRACE ->
+  ttype b <> PORYSWITCH ->
+  ttype b <> IDENT ->
+  Datatypes.length src < f -> list_value switches env_errors f LMart true (src ++ b :: r) acc = err_tok b "expected mart item".
+Proof. exact ListsParse.mart_list_rejected. Qed.
+Print Assumptions mart_list_rejected.
+
+Theorem mart_list_decided :
+  forall (switches : list (text * text)) (env_errors : bool) (ts : toks),
+  Consume.eof_ended ts ->
+  exists src rest : list token,
+    ts = src ++ rest /\
+    ListsParse.item_list src /\
+    Consume.eof_ended rest /\
+    (forall (f : nat) (acc : list token),
+     list_value switches env_errors f LMart true ts acc = list_value switches env_errors (f - Datatypes.length src) LMart true rest (acc ++ src)) /\
+    (ttype (cur rest) = PORYSWITCH \/
+     (exists v : option (token * string),
+        ListsParse.mart_stop rest v /\
+        (forall (f : nat) (acc : list token),
+         Datatypes.length src < f ->
+         list_value switches env_errors f LMart true ts acc =
+         match v with
+         | Some (b, msg) => err_tok b msg
+         | None => Parser.Ok (acc ++ src, rest)
+         end))).
+Proof. exact ListsParse.mart_list_decided. Qed.
+Print Assumptions mart_list_decided.
+
+Theorem mart_list_sound :
+  forall (switches : list (text * text)) (env_errors : bool) (f : nat) (ts : toks) (acc items : list token) (ts' : toks),
+  Consume.eof_ended ts ->
+  list_value switches env_errors f LMart true ts acc = Parser.Ok (items, ts') ->
+  (exists src : list token, ts = src ++ ts' /\ ListsParse.item_list src /\ ttype (cur ts') = RBRACE /\ items = acc ++ src) \/
+  (exists src rest : list token, ts = src ++ rest /\ ListsParse.item_list src /\ ttype (cur rest) = PORYSWITCH).
+Proof. exact ListsParse.mart_list_sound. Qed.
+Print Assumptions mart_list_sound.
+
+Theorem movement_statement_accepted :
+  forall (switches : list (text * text)) (env_errors : bool) (f : nat) (hd : list token) (kw name : token) (g : bool) 
+    (src : list token) (cl : token) (rest : list token),
+  ListsParse.stmt_header hd kw name g ->
+  ListsParse.step_list src ->
+  ListsParse.mults_ok src ->
+  ttype cl = RBRACE ->
+  ListsParse.nelems src < f ->
+  parse_movement switches env_errors f (hd ++ src ++ cl :: rest) = Parser.Ok (TMovement (tlit name) g kw (ListsParse.expand src), cl :: rest).
+Proof. exact ListsParse.movement_statement_accepted. Qed.
+Print Assumptions movement_statement_accepted.
+
+Theorem movement_statement_rejected :
+  forall (switches : list (text * text)) (env_errors : bool) (f : nat) (hd : list token) (kw name : token) (g : bool) 
+    (src rest : list token) (b : token) (msg : string),
+  ListsParse.stmt_header hd kw name g ->
+  ListsParse.step_list src ->
+  ListsParse.mults_ok src ->
+  rest <> [] ->
+  ListsParse.follows_ok src (cur rest) ->
+  ListsParse.list_stop RBRACE rest (Some (b, msg)) ->
+  ListsParse.nelems src < f -> parse_movement switches env_errors f (hd ++ src ++ rest) = err_tok b msg.
+Proof. exact ListsParse.movement_statement_rejected. Qed.
+Print Assumptions movement_statement_rejected.
+
+Theorem movement_statement_sound :
+  forall (switches : list (text * text)) (env_errors : bool) (f : nat) (ts : toks) (tp : top) (ts' : toks),
+  Consume.eof_ended ts ->
+  parse_movement switches env_errors f ts = Parser.Ok (tp, ts') ->
+  exists (h : list token) (n lb : token) (body : list token) (g : bool) (src : list token),
+    ts = h ++ n :: lb :: body /\
+    ttype n = IDENT /\
+    ttype lb = LBRACE /\
+    PorySwitchLists.list_erase switches env_errors f (LMov RBRACE) true body [] = Parser.Ok (src, ts') /\
+    ListsParse.step_list src /\
+    ListsParse.mults_ok src /\ ttype (cur ts') = RBRACE /\ tp = TMovement (tlit n) g (cur ts) (ListsParse.expand src).
+Proof. exact ListsParse.movement_statement_sound. Qed.
+Print Assumptions movement_statement_sound.
+
+Theorem mart_statement_accepted :
+  forall (switches : list (text * text)) (env_errors : bool) (consts : list (text * text)) (f : nat) (hd : list token) 
+    (kw name : token) (g : bool) (src : list token) (cl : token) (rest : list token),
+  ListsParse.stmt_header hd kw name g ->
+  ListsParse.item_list src ->
+  ttype cl = RBRACE ->
+  Datatypes.length src < f ->
+  parse_mart switches env_errors consts f (hd ++ src ++ cl :: rest) =
+  Parser.Ok (TMart (tlit name) g kw (map (fun tk : token => creplace consts (tlit tk)) src) src, cl :: rest).
+Proof. exact ListsParse.mart_statement_accepted. Qed.
+Print Assumptions mart_statement_accepted.
+
+Theorem mart_statement_sound :
+  forall (switches : list (text * text)) (env_errors : bool) (consts : list (text * text)) (f : nat) (ts : toks) (tp : top) (ts' : toks),
+  Consume.eof_ended ts ->
+  parse_mart switches env_errors consts f ts = Parser.Ok (tp, ts') ->
+  exists (h : list token) (n lb : token) (body : list token) (g : bool) (src : list token),
+    ts = h ++ n :: lb :: body /\
+    ttype n = IDENT /\
+    ttype lb = LBRACE /\
+    PorySwitchLists.list_erase switches env_errors f LMart true body [] = Parser.Ok (src, ts') /\
+    ListsParse.item_list src /\
+    ttype (cur ts') = RBRACE /\ tp = TMart (tlit n) g (cur ts) (map (fun tk : token => creplace consts (tlit tk)) src) src.
+Proof. exact ListsParse.mart_statement_sound. Qed.
+Print Assumptions mart_statement_sound.
+
+Theorem emit_steps_unterminated :
+  forall (mp : option text) (l : list token),
+  Forall ListsParse.not_end l -> emit_steps mp l = flat_map (ListsParse.step_line mp) l ++ [ListsParse.end_line].
+Proof. exact ListsParse.emit_steps_unterminated. Qed.
+Print Assumptions emit_steps_unterminated.
+
+Theorem emit_steps_terminated :
+  forall (mp : option text) (pre : list token) (e : token) (post : list token),
+  Forall ListsParse.not_end pre -> tlit e = t "step_end" -> emit_steps mp (pre ++ e :: post) = flat_map (ListsParse.step_line mp) (pre ++ [e]).
+Proof. exact ListsParse.emit_steps_terminated. Qed.
+Print Assumptions emit_steps_terminated.
+
+Theorem emit_items_unterminated :
+  forall (mp : option text) (val : token -> text) (l : list token),
+  Forall (fun x : token => val x <> t "ITEM_NONE") l -> emit_items mp (map val l) l = flat_map (ListsParse.item_line mp val) l.
+Proof. exact ListsParse.emit_items_unterminated. Qed.
+Print Assumptions emit_items_unterminated.
+
+Theorem emit_items_terminated :
+  forall (mp : option text) (val : token -> text) (pre : list token) (e : token) (post : list token),
+  Forall (fun x : token => val x <> t "ITEM_NONE") pre ->
+  val e = t "ITEM_NONE" -> emit_items mp (map val (pre ++ e :: post)) (pre ++ e :: post) = flat_map (ListsParse.item_line mp val) pre.
+Proof. exact ListsParse.emit_items_terminated. Qed.
+Print Assumptions emit_items_terminated.
+
+Theorem movement_statement_compiles_unterminated :
+  forall (switches : list (text * text)) (env_errors : bool) (mp : option text) (tl : list text) (opt : bool) (f : nat) 
+    (hd : list token) (kw name : token) (g : bool) (src : list token) (cl : token) (rest : list token),
+  ListsParse.stmt_header hd kw name g ->
+  ListsParse.step_list src ->
+  ListsParse.mults_ok src ->
+  ttype cl = RBRACE ->
+  ListsParse.nelems src < f ->
+  (forall x : token, In x src -> ttype x = IDENT -> ListsParse.not_end x) ->
+  exists tp : top,
+    parse_movement switches env_errors f (hd ++ src ++ cl :: rest) = Parser.Ok (tp, cl :: rest) /\
+    emit_top mp tl opt tp =
+    Some
+      (Ok (marker mp (tline kw) ++ ILabel (tlit name) g :: flat_map (ListsParse.step_line mp) (ListsParse.expand src) ++ [ListsParse.end_line])).
+Proof. exact ListsParse.movement_statement_compiles_unterminated. Qed.
+Print Assumptions movement_statement_compiles_unterminated.
+
+Theorem movement_statement_compiles_terminated :
+  forall (switches : list (text * text)) (env_errors : bool) (mp : option text) (tl : list text) (opt : bool) (f : nat) 
+    (hd : list token) (kw name : token) (g : bool) (s1 : list token) (e : token) (s2 : list token) (cl : token) (rest : list token),
+  ListsParse.stmt_header hd kw name g ->
+  ListsParse.step_list s1 ->
+  ListsParse.step_list (e :: s2) ->
+  ListsParse.mults_ok (s1 ++ e :: s2) ->
+  ttype e = IDENT ->
+  tlit e = t "step_end" ->
+  (forall x : token, In x s1 -> ttype x = IDENT -> ListsParse.not_end x) ->
+  ttype cl = RBRACE ->
+  ListsParse.nelems (s1 ++ e :: s2) < f ->
+  exists tp : top,
+    parse_movement switches env_errors f (hd ++ (s1 ++ e :: s2) ++ cl :: rest) = Parser.Ok (tp, cl :: rest) /\
+    emit_top mp tl opt tp =
+    Some (Ok (marker mp (tline kw) ++ ILabel (tlit name) g :: flat_map (ListsParse.step_line mp) (ListsParse.expand s1 ++ [e]))).
+Proof. exact ListsParse.movement_statement_compiles_terminated. Qed.
+Print Assumptions movement_statement_compiles_terminated.
+
+Theorem mart_statement_compiles_unterminated :
+  forall (switches : list (text * text)) (env_errors : bool) (consts : list (text * text)) (mp : option text) (tl : list text) 
+    (opt : bool) (f : nat) (hd : list token) (kw name : token) (g : bool) (src : list token) (cl : token) (rest : list token),
+  ListsParse.stmt_header hd kw name g ->
+  ListsParse.item_list src ->
+  ttype cl = RBRACE ->
+  Datatypes.length src < f ->
+  Forall (fun x : token => ListsParse.item_value consts x <> t "ITEM_NONE") src ->
+  exists tp : top,
+    parse_mart switches env_errors consts f (hd ++ src ++ cl :: rest) = Parser.Ok (tp, cl :: rest) /\
+    emit_top mp tl opt tp =
+    Some
+      (Ok
+         (ILine (tab ++ t ".align 2")
+          :: marker mp (tline kw) ++
+             ILabel (tlit name) g :: flat_map (ListsParse.item_line mp (ListsParse.item_value consts)) src ++ [ListsParse.none_line])).
+Proof. exact ListsParse.mart_statement_compiles_unterminated. Qed.
+Print Assumptions mart_statement_compiles_unterminated.
+
+Theorem mart_statement_compiles_terminated :
+  forall (switches : list (text * text)) (env_errors : bool) (consts : list (text * text)) (mp : option text) (tl : list text) 
+    (opt : bool) (f : nat) (hd : list token) (kw name : token) (g : bool) (s1 : list token) (e : token) (s2 : list token) 
+    (cl : token) (rest : list token),
+  ListsParse.stmt_header hd kw name g ->
+  ListsParse.item_list (s1 ++ e :: s2) ->
+  ttype cl = RBRACE ->
+  Datatypes.length (s1 ++ e :: s2) < f ->
+  Forall (fun x : token => ListsParse.item_value consts x <> t "ITEM_NONE") s1 ->
+  ListsParse.item_value consts e = t "ITEM_NONE" ->
+  exists tp : top,
+    parse_mart switches env_errors consts f (hd ++ (s1 ++ e :: s2) ++ cl :: rest) = Parser.Ok (tp, cl :: rest) /\
+    emit_top mp tl opt tp =
+    Some
+      (Ok
+         (ILine (tab ++ t ".align 2")
+          :: marker mp (tline kw) ++
+             ILabel (tlit name) g :: flat_map (ListsParse.item_line mp (ListsParse.item_value consts)) s1 ++ [ListsParse.none_line])).
+Proof. exact ListsParse.mart_statement_compiles_terminated. Qed.
+Print Assumptions mart_statement_compiles_terminated.
+
+Theorem program_movement_statements :
+  forall (autovars : list (text * autovar)) (switches : list (text * text)) (ee : bool)
+    (parse_format : toks -> Parser.res (token * text * text * toks)),
+  (forall (ts : toks) (tk : token) (v sty : text) (ts' : toks),
+   parse_format ts = Parser.Ok (tk, v, sty, ts') -> forall a : toks, Consume.advs a ts -> Consume.advs a ts') ->
+  forall (ts : toks) (p : program) (st : pstate) (n : text) (g : bool) (tk : token) (steps : list token),
+  Consume.eof_ended ts ->
+  parse_program autovars switches ee parse_format ts = Parser.Ok p ->
+  parse_tops autovars switches ee parse_format (5 * Datatypes.length ts + 4) Hoisting.pstate0 ts = Parser.Ok st ->
+  In (TMovement n g tk steps) (ptops st) ->
+  In (TMovement n g tk steps) (tops p) /\
+  (exists (f : nat) (ts0 ts1 : toks) (src : list token),
+     Consume.eof_ended ts0 /\
+     parse_movement switches ee f ts0 = Parser.Ok (TMovement n g tk steps, ts1) /\
+     ListsParse.step_list src /\
+     ListsParse.mults_ok src /\
+     steps = ListsParse.expand src /\
+     (exists (h : list token) (nm lb : token) (body : list token),
+        ts0 = h ++ nm :: lb :: body /\
+        ttype lb = LBRACE /\
+        n = tlit nm /\ tk = cur ts0 /\ PorySwitchLists.list_erase switches ee f (LMov RBRACE) true body [] = Parser.Ok (src, ts1))).
+Proof. exact ListsParse.program_movement_statements. Qed.
+Print Assumptions program_movement_statements.
+
+Theorem program_mart_statements :
+  forall (autovars : list (text * autovar)) (switches : list (text * text)) (ee : bool)
+    (parse_format : toks -> Parser.res (token * text * text * toks)),
+  (forall (ts : toks) (tk : token) (v sty : text) (ts' : toks),
+   parse_format ts = Parser.Ok (tk, v, sty, ts') -> forall a : toks, Consume.advs a ts -> Consume.advs a ts') ->
+  forall (ts : toks) (p : program) (st : pstate) (n : text) (g : bool) (tk : token) (items : list text) (itoks : list token),
+  Consume.eof_ended ts ->
+  parse_program autovars switches ee parse_format ts = Parser.Ok p ->
+  parse_tops autovars switches ee parse_format (5 * Datatypes.length ts + 4) Hoisting.pstate0 ts = Parser.Ok st ->
+  In (TMart n g tk items itoks) (ptops st) ->
+  In (TMart n g tk items itoks) (tops p) /\
+  (exists (consts : list (text * text)) (f : nat) (ts0 ts1 : toks),
+     Consume.eof_ended ts0 /\
+     parse_mart switches ee consts f ts0 = Parser.Ok (TMart n g tk items itoks, ts1) /\
+     ListsParse.item_list itoks /\
+     items = map (ListsParse.item_value consts) itoks /\
+     (exists (h : list token) (nm lb : token) (body : list token),
+        ts0 = h ++ nm :: lb :: body /\
+        ttype lb = LBRACE /\ n = tlit nm /\ tk = cur ts0 /\ PorySwitchLists.list_erase switches ee f LMart true body [] = Parser.Ok (itoks, ts1))).
+Proof. exact ListsParse.program_mart_statements. Qed.
+Print Assumptions program_mart_statements.
+
+Theorem program_movement_block :
+  forall (opt : bool) (mp : option text) (p : program) (is : list instr) (n : text) (g : bool) (tk : token) (steps : list token),
+  emit_program_instrs opt mp p = Ok is ->
+  In (TMovement n g tk steps) (tops p) ->
+  exists a b : list instr,
+    is = a ++ (marker mp (tline tk) ++ ILabel n g :: emit_steps mp steps) ++ b /\
+    (Forall ListsParse.not_end steps -> emit_steps mp steps = flat_map (ListsParse.step_line mp) steps ++ [ListsParse.end_line]) /\
+    (forall (pre : list token) (e : token) (post : list token),
+     steps = pre ++ e :: post ->
+     Forall ListsParse.not_end pre -> tlit e = t "step_end" -> emit_steps mp steps = flat_map (ListsParse.step_line mp) (pre ++ [e])).
+Proof. exact ListsParse.program_movement_block. Qed.
+Print Assumptions program_movement_block.
+
+Theorem program_mart_block :
+  forall (opt : bool) (mp : option text) (p : program) (is : list instr) (n : text) (g : bool) (tk : token) (val : token -> text)
+    (itoks : list token),
+  emit_program_instrs opt mp p = Ok is ->
+  In (TMart n g tk (map val itoks) itoks) (tops p) ->
+  exists a b : list instr,
+    is =
+    a ++
+    (ILine (tab ++ t ".align 2") :: marker mp (tline tk) ++ ILabel n g :: emit_items mp (map val itoks) itoks ++ [ListsParse.none_line]) ++ b /\
+    (Forall (fun x : token => val x <> t "ITEM_NONE") itoks ->
+     emit_items mp (map val itoks) itoks = flat_map (ListsParse.item_line mp val) itoks) /\
+    (forall (pre : list token) (e : token) (post : list token),
+     itoks = pre ++ e :: post ->
+     Forall (fun x : token => val x <> t "ITEM_NONE") pre ->
+     val e = t "ITEM_NONE" -> emit_items mp (map val itoks) itoks = flat_map (ListsParse.item_line mp val) pre).
+Proof. exact ListsParse.program_mart_block. Qed.
+Print Assumptions program_mart_block.
+
+Theorem moves_operator_accepted :
+  forall (switches : list (text * text)) (env_errors : bool) (f : nat) (mvtok lp : token) (src : list token) (cl : token) (rest : list token),
+  ttype lp = LPAREN ->
+  ListsParse.step_list src ->
+  ListsParse.mults_ok src ->
+  ttype cl = RPAREN ->
+  ListsParse.nelems src < f ->
+  moves_operator switches env_errors f (mvtok :: lp :: src ++ cl :: rest) = Parser.Ok (ListsParse.expand src, cl :: rest).
+Proof. exact ListsParse.moves_operator_accepted. Qed.
+Print Assumptions moves_operator_accepted.
+
+Theorem moves_operator_rejected :
+  forall (switches : list (text * text)) (env_errors : bool) (f : nat) (mvtok lp : token) (src rest : list token) (b : token) (msg : string),
+  ttype lp = LPAREN ->
+  ListsParse.step_list src ->
+  ListsParse.mults_ok src ->
+  rest <> [] ->
+  ListsParse.follows_ok src (cur rest) ->
+  ListsParse.list_stop RPAREN rest (Some (b, msg)) ->
+  ListsParse.nelems src < f -> moves_operator switches env_errors f (mvtok :: lp :: src ++ rest) = err_tok b msg.
+Proof. exact ListsParse.moves_operator_rejected. Qed.
+Print Assumptions moves_operator_rejected.
+
+Theorem moves_operator_sound :
+  forall (switches : list (text * text)) (env_errors : bool) (f : nat) (ts : toks) (mv : list token) (ts' : toks),
+  Consume.eof_ended ts ->
+  moves_operator switches env_errors f ts = Parser.Ok (mv, ts') ->
+  exists (m lp : token) (body src : list token),
+    ts = m :: lp :: body /\
+    ttype lp = LPAREN /\
+    PorySwitchLists.list_erase switches env_errors f (LMov RPAREN) true body [] = Parser.Ok (src, ts') /\
+    ListsParse.step_list src /\ ListsParse.mults_ok src /\ ttype (cur ts') = RPAREN /\ mv = ListsParse.expand src.
+Proof. exact ListsParse.moves_operator_sound. Qed.
+Print Assumptions moves_operator_sound.
+
+Theorem moves_argument_becomes_label :
+  forall (switches : list (text * text)) (env_errors : bool) (parse_format : toks -> Parser.res (token * text * text * toks))
+    (consts : list (text * text)) (f : nat) (script : text) (name lp : token) (a : CmdArgs.arglist) (rp : token) (rest : list token),
+  ttype lp = LPAREN ->
+  ttype rp = RPAREN ->
+  CmdArgs.wf_args switches env_errors parse_format a ->
+  CmdArgs.balanced (CmdArgs.flat a) ->
+  Forall CmdArgs.simple_group (CmdArgs.groups_of a) ->
+  Datatypes.length (CmdArgs.arg_tokens a) < f ->
+  forall (c : cmd) (imp : impdata) (ts' : toks),
+  command_stmt switches env_errors parse_format consts f script (name :: lp :: CmdArgs.arg_tokens a ++ rp :: rest) = Parser.Ok (c, imp, ts') ->
+  forall (impB impA : impdata) (h h' : hst) (ps : list patch),
+  (forall it : imptext, In it (idT impB ++ idT impA) -> itCid it <> Ast.cid c) ->
+  (forall im : impmov, In im (idM impB ++ idM impA) -> imCid im <> Ast.cid c) ->
+  add_implicit (impadd impB (impadd imp impA)) h = (h', ps) ->
+  forall (k : nat) (g1 : list CmdArgs.piece) (lt : list token) (clo : token) (mv : list token) (g2 : list CmdArgs.piece),
+  nth_error (CmdArgs.strip_last_empty (CmdArgs.groups_of a)) k = Some (g1 ++ CmdArgs.PMoves lt clo mv :: g2) ->
+  CmdArgs.pure g1 ->
+  CmdArgs.pure g2 ->
+  exists (args' : list text) (l : text),
+    pcmd ps c = {| cname := tlit name; cargs := args'; ctok := name; Ast.cid := Ast.cid c |} /\
+    nth_error args' k = Some l /\ assoc (hmset h') (mov_key mv) = Some l.
+Proof. exact ListsParse.moves_argument_becomes_label. Qed.
+Print Assumptions moves_argument_becomes_label.
+
+Theorem hoisted_moves_block :
+  forall (autovars : list (text * autovar)) (switches : list (text * text)) (parse_format : toks -> Parser.res (token * text * text * toks))
+    (ts : toks) (p : program) (st : pstate) (src : list token) (l : text) (opt : bool) (mp : option text) (is : list instr),
+  parse_program autovars switches true parse_format ts = Parser.Ok p ->
+  parse_tops autovars switches true parse_format (5 * Datatypes.length ts + 4) Hoisting.pstate0 ts = Parser.Ok st ->
+  ListsParse.step_list src ->
+  assoc (hmset (ph st)) (mov_key (ListsParse.expand src)) = Some l ->
+  (forall x : token, In x src -> ttype x = IDENT -> Hoisting.no_colon x) ->
+  (forall (tk : token) (steps : list token), In (TMovement l false tk steps) (tops p) -> Forall Hoisting.no_colon steps) ->
+  emit_program_instrs opt mp p = Ok is ->
+  Datatypes.length (filter (Hoisting.is_mov_named l) (tops p)) = 1 /\
+  (exists (tk : token) (steps : list token) (a b : list instr),
+     In (TMovement l false tk steps) (tops p) /\
+     map tlit steps = map tlit (ListsParse.expand src) /\ is = a ++ (marker mp (tline tk) ++ ILabel l false :: emit_steps mp steps) ++ b).
+Proof. exact ListsParse.hoisted_moves_block. Qed.
+Print Assumptions hoisted_moves_block.
+
+Theorem hoisted_moves_lines :
+  forall (autovars : list (text * autovar)) (switches : list (text * text)) (parse_format : toks -> Parser.res (token * text * text * toks))
+    (ts : toks) (p : program) (st : pstate) (src : list token) (l : text) (opt : bool) (is : list instr),
+  parse_program autovars switches true parse_format ts = Parser.Ok p ->
+  parse_tops autovars switches true parse_format (5 * Datatypes.length ts + 4) Hoisting.pstate0 ts = Parser.Ok st ->
+  ListsParse.step_list src ->
+  assoc (hmset (ph st)) (mov_key (ListsParse.expand src)) = Some l ->
+  (forall x : token, In x src -> ttype x = IDENT -> Hoisting.no_colon x) ->
+  (forall (tk : token) (steps : list token), In (TMovement l false tk steps) (tops p) -> Forall Hoisting.no_colon steps) ->
+  emit_program_instrs opt None p = Ok is ->
+  exists a b : list instr, is = a ++ (ILabel l false :: map (fun x : list N => ILine (tab ++ x)) (steps_out (ListsParse.expand src))) ++ b.
+Proof. exact ListsParse.hoisted_moves_lines. Qed.
+Print Assumptions hoisted_moves_lines.
+
